@@ -1,4 +1,17 @@
-"""C13  Facet index: hierarchical membership and exact facet counts."""
+"""C13  Facet index: hierarchical membership and exact facet counts.
+
+Generator modes (measured, quick tier, seed 0, 12000 cases): small 92%, bulk 8%; the largest posting reached
+65-120 docids in 5%, 121-300 in 3% of the cases (4.9% of all cases reach >= 65 docids under the class default
+tree_threshold); > 120 withdrawn documents in 0.5%.
+
+Size- / entry-point-dependent mutations tried on scratch copies (VERIF_REPO=/var/tmp/mut_strong1_<N>, deleted
+afterwards), all VIOLATION with a shrunk replay, quick tier, seed 0:
+  M5  counts(): the memo is keyed by the NUMBER of facets of a document when more than 128 docids are given
+  M7  KeywordIndex.search(.., 'and') returns the smallest set without intersecting when it has > 80 docids
+  M10 KeywordIndex.apply({'query': [..]}) defaults to operator 'or'
+  M12 docids() cached on (indexed_count, not_indexed_count)
+and the seeded change C13_D (posting promoted to a TreeSet at tree_threshold, the triggering docid is lost).
+"""
 from lib.core import exc_name, idset
 
 ID = "C13"
@@ -7,14 +20,22 @@ THEOREMS = ["Hyp.Facet." + t for t in (
     "c13_refinement", "c13_membership", "c13_eq", "c13_any", "c13_all", "c13_docids", "c13_noteq", "c13_index_entry",
     "c13_unmatched_unknown", "c13_counts", "c13_counts_matches_spec", "c13_counts_omitted_absent", "c13_counts_unconfigured_absent")]
 CASES = {"quick": 12000, "thorough": 200000}
-BUDGET_S = {"quick": 40, "thorough": 700}
+BUDGET_S = {"quick": 34, "thorough": 660}
 RULE = ("facet sets of 1-7 names from an adversarial pool (a, ab, abc, b, bc, c, a:b, a:b:c, ab:c, bc:c, "
         "non-ASCII, empty segments; contains pairs whose concatenations coincide such as {ab,c}/{a,bc}); "
         "histories of 3-40 (thorough: up to 200) index/reindex/unindex/reset/optimize/set-threshold calls over "
         "docids 0..11 plus extreme ids with path lists matching none/some/nested/duplicated facets, empty "
         "lists and withdrawn values; counts(docids, omit_facets) with known, unknown, facet-less, withdrawn and "
         "repeated ids (lists and query results) and omit lists of facets, descendants and unrelated names; "
-        "Eq/NotEq/Any/NotAny/All/NotAll through index.applyX and query objects; both BTrees families. "
+        "Eq/NotEq/Any/NotAny/All/NotAll through index.applyX and query objects, the inherited apply() itself "
+        "(list, tuple, {'query': ..} with operator and/or/absent, bare string), counts() over the index's own "
+        "docids()/indexed()/not_indexed(), the enumeration tuple (sometimes twice in a row), identical content "
+        "again, unindex twice; segments also upper case, digit, blank, dotted and 40 characters long; both "
+        "BTrees families. bulk mode (8% of the cases): 70-400 documents (dense or strided docid runs anywhere in "
+        "the family's range, any order) so that the first facet's posting holds 65-400 docids, 60% of them under "
+        "the class default tree_threshold (others 64/100/32/200/5), 12% with 121-199 withdrawn documents, 45% "
+        "with a drain of that posting back to 58-66 docids (or nothing), optimize(), then a small history on a few "
+        "ids and counts() over all ids. "
         "non-trivial = some counts answer is non-empty and the answers contain three different values")
 LEVEL_TEXT = ("Lean 4 proof: for every configured facet set and every history the model of FacetIndex (with its "
               "posting representation erased) represents the table docid -> {configured facets that are a "
@@ -28,15 +49,18 @@ LEVEL_NOTE = ("trusted: Lean kernel (propext, Quot.sound, Classical.choice), BTr
               "to the driver as ranked segment lists), sampled correspondence, the harness")
 TECHNIQUE = "Lean 4 refinement invariant + loop invariants (prefix expansion, memoised counting) + differential correspondence"
 
-SEGS = ["", "a", "ab", "abc", "b", "bc", "c", "é", "中", "x"]
+SEGS = ["", "a", "ab", "abc", "b", "bc", "c", "é", "中", "x", "A", "0", " ", "a.b", "a" * 40]
 SEG_RANK = {s: i for i, s in enumerate(SEGS)}
 FACET_POOL = ["a", "ab", "abc", "b", "bc", "c", "a:b", "a:b:c", "ab:c", "bc:c", "a:bc", "é", "é:中", "中",
-              "a:b:c:x", "c:a", "", "a:", ":a", "x"]
-PATH_EXTRA = ["a:b:c:x:x", "a:x", "ab:x", "abc:x", "x:a", "b:c", "c:a:b", "é:中:a", "a::b", ":", "x:x"]
+              "a:b:c:x", "c:a", "", "a:", ":a", "x", "A", "0", "0:0", " ", "a.b", "a" * 40, "a:" + "a" * 40]
+PATH_EXTRA = ["a:b:c:x:x", "a:x", "ab:x", "abc:x", "x:a", "b:c", "c:a:b", "é:中:a", "a::b", ":", "x:x", "A:a", "0:a", " : ",
+              "a.b:a"]
 IDS64 = list(range(12)) + [2 ** 31 - 1, -2 ** 31, 2 ** 62]
 IDS32 = list(range(12)) + [2 ** 31 - 1, -2 ** 31]
 QOPS = ["eq", "noteq", "any", "notany", "all", "notall"]
 THRS = [1, 2, 3, 5, 64]
+BULK_THRS = [64, 64, 64, 100, 32, 200, 5]
+BULK_SHARE = 0.08
 
 
 def enc(f):
@@ -113,36 +137,135 @@ def via(rng, q):
     return [("q" if q[0] == "notall" else rng.choice(["q", "qx"]))] + q
 
 
-def gen_history(rng, tier, ids, facets, maxlen):
-    cmds = []
-    for _ in range(rng.randrange(3, maxlen)):
+def gen_apply(rng, facets):
+    """the inherited KeywordIndex.apply() called directly: list / tuple / {'query': ..} (= All), operator 'or'
+    (= Any), a bare string (= Eq)"""
+    q = gen_query(rng, facets, rng.choice(["eq", "any", "all", "all"]))
+    if q[0] == "eq":
+        return ["qa", rng.choice(["s", "l"]), "eq", q[1]]
+    if q[0] == "any":
+        return ["qa", "do", "any"] + q[1:]
+    return ["qa", rng.choice(["l", "t", "d", "da"]), "all"] + q[1:]
+
+
+def gen_counts_of(rng, facets):
+    """counts() fed with the index's own enumerations: docids() / indexed() / not_indexed()"""
+    om = [] if rng.random() < 0.6 else [rng.choice(facets) + rng.choice(["", ":x"])]
+    return ["countsd", rng.choice(["docids", "docids", "indexed", "notindexed"]), "|"] + [enc(o) for o in om]
+
+
+def small_ops(rng, ids, facets, cmds, nops, thrs=THRS, allids=None):
+    last = {}
+    for _ in range(nops):
         r = rng.random()
         d = rng.choice(ids)
         if r < 0.03:
             cmds.append(["reset"])
         elif r < 0.12:
             cmds.append(["unindex", d])
+            if rng.random() < 0.15:
+                cmds.append(["unindex", d])                                          # once more: now unknown
         elif r < 0.22:
             cmds.append([rng.choice(["index", "reindex"]), d, "none"])
         elif r < 0.27:
             cmds.append(["optimize"])
         elif r < 0.31:
-            cmds.append(["setthr", rng.choice(THRS)])
+            cmds.append(["setthr", rng.choice(thrs)])
+        elif r < 0.37 and d in last:
+            cmds.append([rng.choice(["index", "reindex"]), d] + last[d])             # identical content again
         else:
-            cmds.append([rng.choice(["index", "index", "reindex"]), d] + [enc(p) for p in gen_paths(rng, facets)])
+            ps = [enc(p) for p in gen_paths(rng, facets)]
+            cmds.append([rng.choice(["index", "index", "reindex"]), d] + ps)
+            last[d] = ps
         if rng.random() < 0.2:
-            cmds.append(via(rng, gen_query(rng, facets)))
+            cmds.append(via(rng, gen_query(rng, facets)) if rng.random() < 0.85 else gen_apply(rng, facets))
         if rng.random() < 0.25:
-            cmds.append(gen_counts(rng, ids, facets))
+            cmds.append(gen_counts(rng, allids if allids and rng.random() < 0.3 else ids, facets))
+        if rng.random() < 0.04:
+            cmds.append(gen_counts_of(rng, facets))
         if rng.random() < 0.03:
             cmds.append(["tags"])
+        if rng.random() < 0.04:
+            cmds.append(["obs"])
+            if rng.random() < 0.3:
+                cmds.append(["obs"])
+
+
+def tail(rng, ids, facets, cmds):
     for op in QOPS:
         q = gen_query(rng, facets, op)
         cmds.append(via(rng, q))
+    cmds.append(gen_apply(rng, facets))
     for _ in range(3):
         cmds.append(gen_counts(rng, ids, facets))
     cmds.append(["countsq"] + gen_query(rng, facets, "any")[1:] + ["|"])
+    cmds.append(gen_counts_of(rng, facets))
+    cmds.append(["obs"])
     cmds.append(["tags"])
+
+
+def gen_history(rng, tier, ids, facets, maxlen):
+    cmds = []
+    small_ops(rng, ids, facets, cmds, rng.randrange(3, maxlen))
+    tail(rng, ids, facets, cmds)
+    return cmds
+
+
+def gen_bulk(rng, tier, fam, facets):
+    """size-dependent behaviour: 70-400 documents listed under 1-4 facets, the largest posting holds at least 65
+    docids (tree_threshold = 64 by default, > 120 ints per set bucket), optionally > 120 withdrawn documents; then
+    a `drain` that brings that posting back to 58..66 docids, an ordinary small history (optimize, threshold
+    changes) on a few of the ids, counts() over all ids / query results / the index's own enumerations"""
+    import importlib
+    c01 = importlib.import_module("props.c01")
+    n = c01.bulk_sizes(rng, tier)
+    ids = c01.bulk_ids(rng, fam, n)
+    hot = facets[0]
+    s0 = rng.randrange(65, n + 1) if rng.random() < 0.7 else rng.randrange(65, min(n, 75) + 1)
+    paths = []
+    for i in range(n):
+        ps = [hot + rng.choice(["", "", ":x", ":a:b"])] if i < s0 else []
+        ps += [f for f in facets[1:4] if rng.random() < 0.4]
+        if rng.random() < 0.1 or not ps:
+            ps += gen_paths(rng, facets[1:] or facets) if i >= s0 else gen_paths(rng, facets)
+        if rng.random() < 0.1 and ps:
+            ps.append(ps[0])
+        rng.shuffle(ps)
+        paths.append([enc(p) for p in ps])
+    nnone = rng.randrange(121, 200) if rng.random() < 0.12 else rng.choice([0, 0, 1, 5])
+    top = 2 ** 31 if fam == 32 else 2 ** 63
+    extra = [ids[-1] + 1 + i for i in range(nnone)] if ids[-1] + nnone < top else [ids[0] - 1 - i for i in range(nnone)]
+    pairs = list(zip(ids, paths)) + [(d, ["none"]) for d in extra]
+    order = rng.random()
+    if order < 0.5:
+        rng.shuffle(pairs)
+    elif order < 0.65:
+        pairs.reverse()
+    cmds = [["index", d] + ps for d, ps in pairs]
+    allids = ids + extra
+    if rng.random() < 0.5:
+        cmds.append(via(rng, gen_query(rng, facets)))
+        cmds.append(gen_counts(rng, allids, facets))
+    if rng.random() < 0.3:
+        cmds.append(["optimize"])
+    if rng.random() < 0.45:
+        members = ids[:s0]
+        members = rng.sample(members, len(members))
+        for d in members[(0 if rng.random() < 0.2 else rng.randrange(58, 67)):]:     # 0: the posting goes away
+            r = rng.random()
+            if r < 0.5:
+                cmds.append(["unindex", d])
+            elif r < 0.7:
+                cmds.append(["index", d, "none"])
+            elif r < 0.8:
+                cmds.append(["index", d])
+            else:
+                cmds.append([rng.choice(["index", "reindex"]), d] + [enc(p) for p in gen_paths(rng, facets[1:] or ["x"])])
+        cmds.append(via(rng, gen_query(rng, facets, "eq")))
+    fresh = [ids[-1] + 1000 + i for i in range(3)] if ids[-1] + 1003 < top else [ids[0] - 1000 - i for i in range(3)]
+    some = sorted(set([ids[0], ids[-1]] + rng.sample(ids, 8) + fresh))
+    small_ops(rng, some, facets, cmds, rng.randrange(5, 30), thrs=BULK_THRS, allids=allids)
+    tail(rng, allids if rng.random() < 0.6 else some, facets, cmds)
     return cmds
 
 
@@ -160,11 +283,24 @@ def gen(rng, tier, idx):
         facets = rng.sample(FACET_POOL, rng.randrange(1, 8))
     if rng.random() < 0.1:
         facets.append(facets[0])
-    maxlen = 40 if tier == "quick" or rng.random() < 0.93 else 200
     cfg = [["cfg", "facets"] + [enc(f) for f in facets], ["cfg", "family", fam],
-           ["cfg", "disc", rng.choice(["attr", "callable"])], ["cfg", "opt", rng.randrange(2)],
-           ["cfg", "thr", rng.choice(THRS)]]
+           ["cfg", "disc", rng.choice(["attr", "callable"])], ["cfg", "opt", rng.randrange(2)]]
+    if rng.random() < BULK_SHARE:
+        # the class default tree_threshold (no instance attribute) in 60% of the bulk cases
+        if rng.random() >= 0.6:
+            cfg.append(["cfg", "thr", rng.choice(BULK_THRS)])
+        return {"session": "facet", "cfg": cfg + [["cfg", "mode", "bulk"]], "cmds": gen_bulk(rng, tier, fam, facets)}
+    maxlen = 40 if tier == "quick" or rng.random() < 0.93 else 200
+    if rng.random() < 0.85:
+        cfg.append(["cfg", "thr", rng.choice(THRS)])
     return {"session": "facet", "cfg": cfg, "cmds": gen_history(rng, tier, ids, facets, maxlen)}
+
+
+def model_cmd(c):
+    """KeywordIndex.apply() forms named by what they mean (see props/c02.py)"""
+    if c[0] == "qa":
+        return ["q", c[2]] + list(c[3:])
+    return c
 
 
 def cfgdict(case):
@@ -181,6 +317,7 @@ class FacetImpl(object):
         else:
             disc = "x"
         self.opt = bool(cfg.get("opt", 1))
+        self.cfg = cfg
         self.idx = FacetIndex(disc, [dec(t) for t in cfg.get("facets", [])], family=self.fam)
         if "thr" in cfg:
             self.idx.tree_threshold = int(cfg["thr"])
@@ -235,6 +372,8 @@ class FacetImpl(object):
     def tags(self):
         if getattr(self, "stale", False):
             return None
+        if "thr" not in self.cfg and not getattr(self, "thr_set", False) and self.idx.tree_threshold != 64:
+            return None         # class default in force and it is not the modelled 64: representation not compared
         try:
             items = list(self.idx._fwd_index.items())
             Set, TreeSet = self.fam.IF.Set, self.fam.IF.TreeSet
@@ -285,11 +424,23 @@ class FacetImpl(object):
                 return "ok"
             if op == "setthr":
                 self.idx.tree_threshold = c[1]
+                self.thr_set = True
                 return "ok"
             if op == "q":
                 return self.query(False, c[1:])
             if op == "qx":
                 return self.query(True, c[1:])
+            if op == "qa":
+                ks = [dec(t) for t in c[3:]]
+                arg = {"s": lambda: ks[0], "l": lambda: ks, "t": lambda: tuple(ks), "d": lambda: {"query": ks},
+                       "da": lambda: {"query": ks, "operator": "and"},
+                       "do": lambda: {"query": ks, "operator": "or"}}[c[1]]()
+                return idset(self.idx.apply(arg))
+            if op == "countsd":
+                # counts() fed with what the index itself enumerates
+                i = c.index("|")
+                ds = {"docids": self.idx.docids, "indexed": self.idx.indexed, "notindexed": self.idx.not_indexed}[c[1]]()
+                return self.show_counts(self.idx.counts(ds, [dec(t) for t in c[i + 1:]]))
             if op == "counts":
                 return self.counts(c[1:])
             if op == "countsq":
@@ -333,7 +484,7 @@ def neighbourhood(rng, case):
         if c[0] == "tags":
             continue
         cmds.append(c)
-        if c[0] not in ("q", "qx", "counts", "countsq"):
+        if c[0] not in ("q", "qx", "qa", "obs", "counts", "countsq", "countsd"):
             for f in list(facets) + [enc(x) for x in rng.sample(FACET_POOL, 3)]:
                 cmds.append(["q", "eq", f])
             cmds.append(["q", "notall"])
@@ -342,15 +493,19 @@ def neighbourhood(rng, case):
 
 
 def nontrivial(case, outs):
-    answers = {o for c, o in zip(case["cmds"], outs) if c[0] in ("q", "qx", "counts", "countsq")}
-    cn = [o for c, o in zip(case["cmds"], outs) if c[0] in ("counts", "countsq") and o not in ("{}",)]
+    answers = {o for c, o in zip(case["cmds"], outs) if c[0] in ("q", "qx", "qa", "counts", "countsq", "countsd")}
+    cn = [o for c, o in zip(case["cmds"], outs) if c[0] in ("counts", "countsq", "countsd") and o not in ("{}",)]
     return len(answers) >= 3 and bool(cn)
 
 
 def features(case, outs):
     cfg = cfgdict(case)
     facets = [dec(t) for t in cfg.get("facets", [])]
-    f = ["family:%s" % cfg.get("family"), "nfacets:%d" % len(set(facets))]
+    f = ["family:%s" % cfg.get("family"), "nfacets:%d" % len(set(facets)), "mode:%s" % cfg.get("mode", "small"),
+         "thr0:%s" % cfg.get("thr", "class-default")]
+    post = {}
+    mp = mn = 0
+    prev_cmd = None
     cat = {"".join(sorted(c)) for n in range(1, 4) for c in __import__("itertools").combinations(sorted(set(facets)), n)}
     ncomb = sum(1 for n in range(1, 4) for _ in __import__("itertools").combinations(sorted(set(facets)), n))
     if len(cat) < ncomb:
@@ -360,9 +515,22 @@ def features(case, outs):
     state = {}
     fs = set(facets)
     for c, o in zip(case["cmds"], outs):
+        if c[0] in ("index", "reindex", "unindex"):
+            old = state.get(c[1])
+            for x in (old if isinstance(old, set) else ()):
+                post[x] -= 1
+        if c[0] == "qa":
+            f.append("apply:%s:%s:%s" % (c[1], c[2], "empty" if o == "{}" else "nonempty" if o.startswith("{") else o))
+        elif c[0] == "countsd":
+            f.append("counts-of:%s:%s" % (c[1], "empty" if o == "{}" else "nonempty" if o.startswith("{") else o))
+        elif c[0] == "obs":
+            f.append("obs-twice" if prev_cmd == ["obs"] else "obs")
+        prev_cmd = c
         if c[0] in ("q", "qx"):
             f.append("%s:%s:%s" % (c[0], c[1], "empty" if o == "{}" else "nonempty" if o.startswith("{") else o))
         elif c[0] in ("index", "reindex"):
+            if c[0] == "reindex":
+                f.append("via-reindex_doc")
             if c[2:] == ["none"]:
                 f.append("index:none")
                 state[c[1]] = "none"
@@ -380,11 +548,15 @@ def features(case, outs):
                 if len(set(paths)) < len(paths):
                     f.append("index:dup-paths")
                 state[c[1]] = m
+                for x in m:
+                    post[x] = post.get(x, 0) + 1
+                mp = max(mp, max(post.values(), default=0))
         elif c[0] == "unindex":
             f.append("unindex:%s" % ("known" if c[1] in state else "unknown"))
             state.pop(c[1], None)
         elif c[0] == "reset":
             state = {}
+            post = {}
             f.append("reset")
         elif c[0] in ("optimize", "setthr"):
             f.append(c[0])
@@ -414,4 +586,10 @@ def features(case, outs):
             f.append("tags:%s" % ("tree" if any("/T" in t for t in toks) else "set" if toks else "none"))
         if isinstance(o, str) and o.startswith("err"):
             f.append(o)
+    mn = sum(1 for v in state.values() if v == "none")
+    f.append("max-posting:" + ("0-16" if mp <= 16 else "17-63" if mp < 64 else "64" if mp == 64 else
+                               "65-120" if mp <= 120 else "121-300" if mp <= 300 else ">300"))
+    f.append("final-novalue:" + ("0-16" if mn <= 16 else "17-120" if mn <= 120 else ">120"))
+    if mp >= 65 and "thr" not in cfg:
+        f.append("posting>=65-under-default-threshold")
     return f
